@@ -605,6 +605,10 @@ class Graph:
 
     def _alias_classes_uncached(self, fi: FuncInfo, recv: ast.Name) -> List[Tuple[object, ast.ClassDef]]:
         out: List[Tuple[object, ast.ClassDef]] = []
+        a = fi.node.args
+        for prm in a.posonlyargs + a.args + a.kwonlyargs:
+            if prm.arg == recv.id and prm.annotation is not None:
+                out += self._classes_in_annotation(fi.module, prm.annotation)
         for annot, val in self.cg._bindings(fi.node).get(recv.id, ()):
             if annot is not None:
                 out += self._classes_in_annotation(fi.module, annot)
@@ -811,13 +815,29 @@ class Absorb:
         self.at = at
 
 
-class Flow:
-    """escapes[f] = sites whose exception may leave f."""
+def short_name(fq: str) -> str:
+    """``Class.method`` / ``module.function`` of a (possibly cloned) function name."""
+    fq = fq.split("@")[0]
+    parts = fq.split(".")
+    for i, p in enumerate(parts):
+        if p[:1].isupper():
+            return ".".join(parts[i:])
+    return ".".join(parts[-2:]) if len(parts) > 1 else fq
 
-    def __init__(self, g: Graph, et: ExcTypes, sites: List[Site]):
+
+class Flow:
+    """escapes[f] = sites whose exception may leave f.
+
+    ``cuts`` maps (caller short name, callee short name) to the exception types that
+    are not carried across that call (reviewed chains no execution follows);
+    ``cut_used`` records which entries were needed."""
+
+    def __init__(self, g: Graph, et: ExcTypes, sites: List[Site], cuts: Optional[Dict[Tuple[str, str], Set[str]]] = None):
         self.g = g
         self.et = et
         self.sites = {s.key: s for s in sites}
+        self.cuts = cuts or {}
+        self.cut_used: Set[Tuple[str, str, str]] = set()
         self.escapes: Dict[str, Dict[Tuple[str, int], Optional[Surface]]] = {}
         self.absorbed: List[Absorb] = []
         self._abs_seen: Set[Tuple[Tuple[str, int], int]] = set()
@@ -863,10 +883,15 @@ class Flow:
         work = [fq for fq, d in esc.items() if d]
         while work:
             fq = work.pop()
+            callee = short_name(fq) if self.cuts else ""
             for sf in self.g.surf_to.get(fq, []):
                 cal = sf.caller
+                closed = self.cuts.get((short_name(cal.fq), callee)) if self.cuts else None
                 for key in list(esc[fq]):
                     if key in esc[cal.fq]:
+                        continue
+                    if closed and key[0] in closed:
+                        self.cut_used.add((short_name(cal.fq), callee, key[0]))
                         continue
                     if self._fate(self.sites[key], cal, sf.node):
                         esc[cal.fq][key] = sf
